@@ -108,7 +108,7 @@ def run(tw, tier, seed, only=None):
             samples.append({"G1": gen.graph_desc(a), "G2": gen.graph_desc(b)})
         if len(fails) > 30:
             break
-    return {"cases": cases, "nontrivial": nontriv, "failures": fails[:30], "samples": samples, "exhaustive": False, "evaluations": tw.evaluations,
+    return {"cases": cases, "nontrivial": nontriv, "failures": fails, "samples": samples, "exhaustive": False, "evaluations": tw.evaluations,
             "bound": "%d cases: the edge-attribute grid and pairs of labelled graphs <= %d atoms (2 elements, 2 orders) incl. relabelled copies and disjoint unions; "
                      "both MCSMatcher classes, maximum mode on/off, all directions" % (cases, 3 if tier == "quick" else 4),
             "rule": "a pair is non-trivial when the largest common induced subgraph has at least 2 atoms"}
